@@ -2,9 +2,13 @@
  * per-type factories of valid arguments, value snapshots of the other arguments, classification of the returned
  * value, and the fork-per-case driver.
  *
- * usage: null_guard <listfile>        lines "<row id> <variant letter m|z|n|a> <runtime level>"
+ * usage: null_guard <listfile>        lines "<row id> <variant letter m|z|n|a> <runtime level> [<global setting>]"
+ *   global setting (the client-controlled globals every guard diagnostic is built from), applied in the child before the call:
+ *     default | nameL<n> (program name of n bytes) | nameF<k> (program name containing printf conversions, k-th of NG_FMT_NAMES)
+ *             | verL<n> | verF<k> (the same for the program version)
  * One output line per case:
- *   E row=<id> variant=<m|z|n|a> level=<n> ended=<returned|exit|crash|signal> rv=<class> changed=<0|1> heapdelta=<n> diag=<none|warning|debug|fatal|asan>
+ *   prefix=<ok|bad|na>: a warning / fatal diagnostic carries "<registered program name>:  Warning:  " resp. "FATAL:  " verbatim
+ *   E row=<id> variant=<m|z|n|a> level=<n> env=<setting> ended=<returned|exit|crash|signal> rv=<class> changed=<0|1> heapdelta=<n> diag=<none|warning|debug|fatal|asan>
  *     status=<n> info=<first line of the diagnostic, blanks as _>
  */
 #ifndef NULL_GUARD_RT_H
@@ -126,6 +130,18 @@ static void ng_rv_typename(const char *p) { strcpy(ng_rv, !p ? "NULL" : (!strncm
 static void ng_rv_void(void) { strcpy(ng_rv, "VOID"); }
 
 struct ng_case { int id; char variant; void (*fn)(void); };
+extern spif_charptr_t libast_program_name;      /* declared in libast_internal.h only */
+static const char *NG_FMT_NAMES[] = { "100%sure", "load%n", "%-d%s%s%s", "50%", "%5$s and %*d", "%%s", NULL };
+static char *ng_setting_text(const char *env) {          /* the string the setting registers, NULL for default */
+    const char *p = env + (env[0] == 'n' ? 4 : 3); char *t; long n;
+    if (!strcmp(env, "default")) return NULL;
+    if (*p == 'F') { n = atol(p + 1); return strdup(NG_FMT_NAMES[n]); }
+    n = atol(p + 1);
+    t = (char *) malloc((size_t) n + 1);
+    { long k; for (k = 0; k < n; k++) t[k] = (char) ('a' + (k * 3 + k / 26) % 26); }
+    t[n] = 0;
+    return t;
+}
 #endif /* NULL_GUARD_RT_H */
 
 /* second inclusion, after the generated NG_CASES table:  #define NG_MAIN  +  #include "null_guard_rt.h" */
@@ -137,12 +153,13 @@ static const struct ng_case *ng_find(int id, char variant) {
     return NULL;
 }
 
-static void ng_run(int id, char variant, int level) {
+static void ng_run(int id, char variant, int level, const char *env) {
     const struct ng_case *c = ng_find(id, variant);
     int ep[2], rp[2], status = 0; pid_t pid; ssize_t n; size_t total = 0, kept = 0;
     static char err[1 << 15], tmp[1 << 15], res[256];
-    const char *ended, *diag; char info[100]; size_t i, j;
-    if (!c) { printf("E row=%d variant=%c level=%d ended=unknown_row\n", id, variant, level); return; }
+    const char *ended, *diag, *prefix = "na"; char info[100]; size_t i, j;
+    char *setting = ng_setting_text(env);
+    if (!c) { printf("E row=%d variant=%c level=%d env=%s ended=unknown_row\n", id, variant, level, env); return; }
     if (pipe(ep) || pipe(rp)) { perror("pipe"); exit(2); }
     fflush(stdout);
     pid = fork();
@@ -154,6 +171,7 @@ static void ng_run(int id, char variant, int level) {
         setvbuf(stderr, NULL, _IONBF, 0);
         alarm(10);
         libast_debug_level = 0;
+        if (setting) { if (env[0] == 'n') libast_set_program_name(setting); else libast_set_program_version(setting); }
         ng_level = (unsigned) level;
         c->fn();
         len = snprintf(out, sizeof(out), "rv=%s changed=%d heapdelta=%ld", ng_rv, ng_changed(), (long) ng_h1 - (long) ng_h0);
@@ -176,6 +194,13 @@ static void ng_run(int id, char variant, int level) {
     else if (strstr(err, "Warning:")) diag = "warning";
     else if (total == 0) diag = "none";
     else diag = "debug";                     /* REQUIRE's log line, or any D_* statement that is live at this level */
+    if (!strcmp(diag, "warning") || !strcmp(diag, "fatal")) {          /* "<program name>:  Warning:  " verbatim */
+        const char *name = (setting && env[0] == 'n') ? setting : (const char *) libast_program_name;
+        size_t ln = strlen(name); char *want = (char *) malloc(ln + 32);
+        sprintf(want, "%s:  %s:  ", name, !strcmp(diag, "warning") ? "Warning" : "FATAL");
+        prefix = strstr(err, want) ? "ok" : "bad";
+        free(want);
+    }
     if (WIFSIGNALED(status)) ended = "signal";
     else if (n > 0) ended = "returned";
     else if (!strcmp(diag, "asan")) ended = "crash";
@@ -189,8 +214,8 @@ static void ng_run(int id, char variant, int level) {
         if (!j) strcpy(info, "-");
     }
     if (getenv("NG_VERBOSE")) fprintf(stderr, "---- row %d variant %c level %d: captured diagnostic ----\n%s\n", id, variant, level, err);
-    printf("E row=%d variant=%c level=%d ended=%s %s diag=%s status=%d info=%s\n", id, variant, level, ended,
-           n > 0 ? res : "rv=- changed=0 heapdelta=0", diag, WIFEXITED(status) ? WEXITSTATUS(status) : 128 + WTERMSIG(status), info);
+    printf("E row=%d variant=%c level=%d env=%s ended=%s %s diag=%s prefix=%s status=%d info=%s\n", id, variant, level, env, ended,
+           n > 0 ? res : "rv=- changed=0 heapdelta=0", diag, prefix, WIFEXITED(status) ? WEXITSTATUS(status) : 128 + WTERMSIG(status), info);
 }
 
 int main(int argc, char **argv) {
@@ -204,8 +229,10 @@ int main(int argc, char **argv) {
     setvbuf(stdout, NULL, _IOLBF, 0);
     printf("CASES %lu\n", (unsigned long) (sizeof(NG_CASES) / sizeof(NG_CASES[0])));
     for (line = strtok_r(text, "\n", &save); line; line = strtok_r(NULL, "\n", &save)) {
-        int id, level; char variant;
-        if (sscanf(line, "%d %c %d", &id, &variant, &level) == 3) ng_run(id, variant, level);
+        int id, level, k; char variant, env[64];
+        strcpy(env, "default");
+        k = sscanf(line, "%d %c %d %63s", &id, &variant, &level, env);
+        if (k >= 3) ng_run(id, variant, level, env);
     }
     printf("DONE\n");
     free(text);
